@@ -119,6 +119,9 @@ def judge(res, cs, cr):
                 return [drop_resolved(x) for x in o]
             return o
         doc1, doc2 = drop_resolved(doc1), drop_resolved(doc2)
+        strip_docs = drop_resolved
+    else:
+        strip_docs = lambda o: o
     if doc1 != doc2:
         where = 'top-level'
         for k in doc1:
@@ -176,7 +179,7 @@ def judge(res, cs, cr):
                 y = by_uid.get(str(x['entityUID']))
                 if y is not None and 'value' not in x and 'value' in y and live['items'].get(str(x['entityUID']), {}).get('type') == 'structure':
                     x['value'] = y['value']
-            if bad and bad[0] == 'document-not-stable' and ev['doc1'] == ev['doc2']:
+            if bad and bad[0] == 'document-not-stable' and strip_docs(ev['doc1']) == strip_docs(ev['doc2']):
                 bad = None
         for uid, val in live['values'].items():
             lv = loaded['values'].get(uid)
